@@ -1458,6 +1458,11 @@ class _Idioms(ast.NodeTransformer):
                 attr = "c_" if axv == 1 else "r_"
                 return ast.copy_location(ast.Subscript(value=ast.Attribute(value=ast.Name(id=f.value.id, ctx=ast.Load()), attr=attr, ctx=ast.Load()),
                                                        slice=ast.Tuple(elts=elts, ctx=ast.Load()), ctx=ast.Load()), node)
+        if isinstance(f, ast.Attribute) and f.attr in ("asarray", "asanyarray") and isinstance(f.value, ast.Name) and f.value.id in ("np", "numpy") and len(node.args) == 1 \
+                and not node.keywords and isinstance(node.args[0], ast.Subscript):
+            # np.asarray(x[...]) is x[...] (an indexing result is an array already; no copy, no conversion)
+            self.n += 1
+            return node.args[0]
         if isinstance(f, ast.Attribute) and f.attr == "flatnonzero" and len(node.args) == 1 and not node.keywords:
             self.n += 1
             w = ast.Call(func=ast.Attribute(value=f.value, attr="where", ctx=ast.Load()), args=node.args, keywords=[])
